@@ -51,7 +51,7 @@ class ArgSummary:
                     avoid = list(hits)
                     if modulo_bounds and hits:
                         for e in g.nodes:
-                            if e.kind == 'edge' and bounds_cond(e.e, prm['id']):
+                            if e.kind == 'edge' and bounds_cond(e.e, prm['id']) and out_of_range_edge(e, prm['id']):
                                 r = g.reachable([e])
                                 if not any(h.id in r for h in hits):
                                     avoid.append(e)
@@ -248,8 +248,36 @@ def must_follow_modulo_bounds(g, src, followers, pid):
         return False
     avoid = list(followers)
     for e in g.nodes:
-        if e.kind == 'edge' and bounds_cond(e.e, pid):
+        if e.kind == 'edge' and bounds_cond(e.e, pid) and out_of_range_edge(e, pid):
             r = g.reachable([e])
             if not any(h.id in r for h in followers):
                 avoid.append(e)
     return g.must_follow(src, avoid)
+
+
+def out_of_range_edge(e, pid):
+    """the branch edge e is taken exactly when parameter pid is OUT of range: `p < 0` true, `p >= 0` false, `p >= <size>` true,
+    `p < <size>` false (and the mirrored spellings).  Only such an edge may excuse a skipped obligation: the in-range side of
+    the same test must still meet it."""
+    cp = SX.cmp_parts(e.e) if SX.is_node(e.e) else None
+    if not cp:
+        return False
+    op, a, b = cp[0], SX.strip(cp[1]), SX.strip(cp[2])
+
+    def peel(x):
+        while SX.is_node(x) and x.get('k') == 'cast':
+            x = SX.strip(x['e'])
+        return x
+    a, b = peel(a), peel(b)
+    flip = {'<': '>', '>': '<', '<=': '>=', '>=': '<=', '==': '==', '!=': '!='}
+    neg = {'<': '>=', '>=': '<', '>': '<=', '<=': '>', '==': '!=', '!=': '=='}
+    if SX.is_node(b) and b.get('k') == 'ref' and b.get('id') == pid:
+        a, b, op = b, a, flip[op]
+    if not (SX.is_node(a) and a.get('k') == 'ref' and a.get('id') == pid):
+        return False
+    if not e.pol:
+        op = neg[op]
+    if SX.is_node(b) and b.get('k') == 'int':
+        return (op == '<' and b['v'] <= 0) or (op == '<=' and b['v'] < 0)
+    # anything else the pure range test compares with is an upper bound (a size or a count)
+    return op in ('>=', '>')
